@@ -119,6 +119,9 @@ OTHER = [
  ("C15", "K-range-eviction-depends-on-when-the-clock-is-read", "fixed", "d2598ac",
   "the range cache chose the entry to evict by comparing elapsed() of two entries - two clock readings taken at different moments; a delay between them longer than the stamps are apart made the newest entry look oldest, so a range cached a moment ago (right after a reset with a full cache) stopped being == to an equal literal. Timing-dependent: seen once in ~60 quick runs under load (seed 3, release build), not reproducible by replay; the pinned session is the one it happened in",
   {"ir": {"session": [["snip", [["manyranges", 11]]], ["reset"], ["snip", [["setrange", 1], ["cmprange", 1, 12], ["cmprange", 1, 13]]]], "sites": 0, "mod_sites": {}}, "faults": {}}),
+ ("C15", "K-reset-keeps-the-range-cache", "fixed", "e57bab6",
+  "Vm::reset() kept the range cache: a range the old program had cached first stayed the cache's oldest entry, was found (not re-stamped) when the new program built an equal range, and was evicted by the very next new range - `var r = 2..6; var t = 900..904; r == 2..6` is false after such a reset and true on a new interpreter",
+  {"ir": {"session": [["snip", [["setrange", 1], ["sevenranges", 1]]], ["reset"], ["snip", [["setrange", 1], ["cmprange", 1, 3]]]], "sites": 0, "mod_sites": {}}, "faults": {}}),
 ]
 
 
